@@ -286,6 +286,19 @@ def impl(op, a):
         return [list(b), _fhdr_fields(f.header), [f.len()]]
     if op == 1625:
         p = _props(a[1])
+        if len(a[0]) % 3 == 0:
+            # a long-lived managed-parameter object: first used with other zone sizes, then edited in place
+            ft_, fixed_, ln_, hiz_, hfe_, izs_, izl_, fes_, fel_ = a[1]
+            q = _props([ft_, fixed_, ln_, 1 - hiz_, 1 - hfe_, 1, (izl_ or 0) + 1, 1, (fel_ or 0) + 2])
+            try:
+                uf.TransferFrame.unpack(raw_frame=bytes(a[0]), frame_type=_ft(0 if a[1][0] == 0 else 1), frame_properties=q)
+            except Exception:
+                pass
+            q.insert_zone_properties.present = p.insert_zone_properties.present
+            q.insert_zone_properties.size = p.insert_zone_properties.size
+            q.fecf_properties.present = p.fecf_properties.present
+            q.fecf_properties.size = p.fecf_properties.size
+            p = q
         f = uf.TransferFrame.unpack(raw_frame=bytes(a[0]), frame_type=_ft(0 if a[1][0] == 0 else 1), frame_properties=p)
         return [_fhdr_fields(f.header), _tfdf_fields(f.tfdf), list(f.tfdf.tfdz), _of_ob(f.insert_zone),
                 _of_ob(f.op_ctrl_field), _of_ob(f.fecf), [f.len()]]
